@@ -20,7 +20,7 @@ SDK_OBJS := $(patsubst $(REPO)/%.cc,$(B)/%.o,$(SDK_SRCS))
 CORE_SRCS := $(V)/sim/vsim_core.cc $(V)/sim/runner.cc
 CORE_OBJS := $(patsubst $(V)/sim/%.cc,$(B)/core/%.o,$(CORE_SRCS))
 
-ENGINES := queue batch ctx ident span logs metrics
+ENGINES := queue batch ctx ident span logs metrics async
 ENGINE_BINS := $(patsubst %,$(B)/bin/%,$(ENGINES))
 
 .SECONDARY:
